@@ -102,6 +102,22 @@ func fineStopDisconnect(name string, stop Item) *Scenario {
 	return s
 }
 
+// fineTwoWinners: two acquisition rounds of B have their Creates in flight together; the
+// window opens when the first one wins. Inside it the outside delete (movable) and the
+// answer of the second Create are available as coarse events, so that the second winner
+// can run up to becomeLeader before the first one has got there.
+func fineTwoWinners(name string) *Scenario {
+	s := scnTwoRoundsThenDelete(name, K1)
+	s.FineAt = "create-wins:B"
+	s.FinePts = 400
+	s.MaxSteps = 3000
+	s.RandMenu = nil
+	s.DelayMenu = nil
+	s.AllowDup = false
+	s.Horizon = 750*ms + 2*s.H
+	return s
+}
+
 // fineFailover: B wins the election after A's graceful stop; the window starts when B's
 // winning Create is answered, so that late / duplicated watch notifications about A's
 // record (coarse events, available as alternatives inside the window) interleave with
@@ -178,6 +194,7 @@ func finePlan(prop, tier string) []PlanItem {
 		late.Horizon += 600 * ms
 		items = append(items, PlanItem{late, p})
 	case "C08", "C19":
+		items = append(items, PlanItem{fineTwoWinners("fine/two-winners-of-one-instance"), p})
 		if prop == "C19" {
 			// a demotion that needs no store operation (ValidateTokenOrDemote with an already
 			// cancelled context) racing with the promotion and its callback goroutine
